@@ -986,7 +986,9 @@ func callBuiltin(caller *frame, fn *ssa.Builtin, args []value) value {
 		}
 		// append([]T, ...[]T) []T
 		caller.i.ex.noteAppend(len(args[0].([]value)), cap(args[0].([]value)), len(args[1].([]value)))
-		res := append(args[0].([]value), args[1].([]value)...)
+		// aggregates are reference objects in the interpreter: copying an element must copy
+		// the aggregate, or the two slices would share (and in-place stores corrupt) it
+		res := append(args[0].([]value), cloneAggs(args[1].([]value))...)
 		if cap(res) > len(res) {
 			// Go zeroes the spare capacity of a grown slice; the host append leaves
 			// untyped nils there, which become visible through res[:cap(res)]
@@ -1007,7 +1009,12 @@ func callBuiltin(caller *frame, fn *ssa.Builtin, args []value) value {
 			params := fn.Type().(*types.Signature).Params()
 			src = conv(caller, params.At(0).Type(), params.At(1).Type(), src)
 		}
-		return copy(args[0].([]value), src.([]value))
+		dst, from := args[0].([]value), src.([]value)
+		if len(from) > 0 && isAgg(from[0]) {
+			// element-wise, with overlap handled like the built-in (memmove semantics)
+			from = cloneAggs(from)
+		}
+		return copy(dst, from)
 
 	case "close": // close(chan T)
 		close(args[0].(chan value))
@@ -1550,4 +1557,43 @@ func fandbits[F floaty](x, y F) F {
 		*(*uint64)(unsafe.Pointer(&x)) &= *(*uint64)(unsafe.Pointer(&y))
 	}
 	return x
+}
+
+func isAgg(v value) bool {
+	switch v.(type) {
+	case structure, array:
+		return true
+	}
+	return false
+}
+
+// cloneAgg copies a struct or array value (recursively); other values are
+// immutable scalars or references and are returned as they are.
+func cloneAgg(v value) value {
+	switch v := v.(type) {
+	case structure:
+		c := make(structure, len(v))
+		for i := range v {
+			c[i] = cloneAgg(v[i])
+		}
+		return c
+	case array:
+		c := make(array, len(v))
+		for i := range v {
+			c[i] = cloneAgg(v[i])
+		}
+		return c
+	}
+	return v
+}
+
+func cloneAggs(vs []value) []value {
+	if len(vs) == 0 || !isAgg(vs[0]) {
+		return vs
+	}
+	out := make([]value, len(vs))
+	for i, v := range vs {
+		out[i] = cloneAgg(v)
+	}
+	return out
 }
